@@ -9,6 +9,18 @@ _PENDING = "no registered check yet at this commit (model and correspondence und
 NOT_APPLICABLE = {f"C{i:02d}": _PENDING for i in range(1, 21)}
 
 META = {
+    "C15": {
+        "text": ("Lean theorems about the ordered-map model the adapters are compared with: get/put/delete laws (last write wins, "
+                 "other keys untouched), every batch (merges against pre-batch values, then sets/deletes in call order) keeps the "
+                 "key order strict, the engine seek returns exactly the entries >= key in order; bytewise order is a strict total "
+                 "order. The adapters' iterator logic (start/prefix clamping, validity) is an executable model compared, together "
+                 "with batches, snapshot readers, get and multi-get, against all five real stores on every run."),
+        "design_ref": "DESIGN.md section 4, C15",
+        "note": ("trusted: Lean kernel, Go harness, the engines (bbolt, goleveldb, gtreap, moss). The refinement of the operational "
+                 "iterator to the extensional enumeration is not yet proved (correspondence only). Two engine-level moss behaviours are "
+                 "known findings (KNOWN_FINDINGS.txt)."),
+        "technique": "Lean 4 proof over an ordered-map model + I/O-equality correspondence against five KV stores",
+    },
     "C06": {
         "text": ("Lean theorems for every sort specification, stream, size and skip: SortOrder.Compare is a strict total order on "
                  "matches with distinct hit numbers; the collector (bounded store with back-scan insertion, eviction of the last, "
